@@ -49,8 +49,8 @@ CLAIMED = {
   "C13": C("exploration", "3 C13", "deterministic simulation: aborted transactions at every position + abort racing commit under seeded schedules",
       "Sequential: directory fingerprint (cas/, staging/, WAL bytes, snapshot) and reads identical before/after every abandoned transaction, also after restart. Concurrent: a transaction abandoned at a scheduler-chosen point while others commit/remove; the final state must be what the committing tasks alone produce.",
       SEQ_NOTE + " Concurrent part: " + CONC_NOTE, "casim-seq"),
-  "C14": C("fault_enumeration", "3 C14", "deterministic simulation: one failed mutating libc call per run, per-key {old,new} uncertainty model, later operations + clean reopen",
-      "A dry run counts the fallible mutating calls of the history (open/create, write, fsync/fdatasync, rename, unlink, mkdir, ftruncate); each selected one is failed once with EIO/ENOSPC/EMFILE/EACCES without side effect; the faulted operation may fail or succeed but not panic; 2-6 later operations must succeed, a clean reopen must succeed, and every key must show a possible and readable value (narrow uncertainty: only keys of the failed operation, collapsed only by later operations that logged a record for the key)."),
+  "C14": C("fault_enumeration", "3 C14", "deterministic simulation: one failed mutating libc call per operation (one, or two in different operations, per run), per-key {old,new} uncertainty model, later operations + clean reopen",
+      "A dry run counts the fallible mutating calls of the history (open/create, write, fsync/fdatasync, rename, unlink, mkdir, ftruncate); each selected one is failed once with EIO/ENOSPC/EMFILE/EACCES without side effect; the faulted operation may fail or succeed but not panic; 2-6 later operations must succeed, a clean reopen must succeed, and every key must show a possible and readable value (narrow uncertainty: only keys of the failed operation, collapsed only by later operations that logged a record for the key). One run in three fails a second call in a later operation (the g-th fallible call after the faulted operation returned, g<9): two failed operations in a row, each hit by a single failing call."),
   "C15": C("exploration", "3 C15", "deterministic simulation: seeded schedules with deadlock/hang detection by the controlled scheduler",
       "Programs with the full call mix incl. explicit and roll-over checkpoints and clean-up; every execution must end with all tasks finished (no runnable task = deadlock; > 30000 steps = hang); the writer-preferring RwLock shim makes reader-recursion deadlocks reachable; the held->acquired lock graph is reported.",
       CONC_NOTE, "casim-conc"),
@@ -65,7 +65,7 @@ CLAIMED = {
       "Opens with a different num_ops_per_wal, a forged stored version, or a flipped pre-create choice at random positions of populated histories; rejected opens must leave SimDisk byte-identical and issue no mutating call but opening LOCK; the next correct open shows the model. A run class kills first-time initialisation with pre_create_cas_dirs inside the 65 792 mkdirs and then uses the recovered store. Concurrent part: tasks race first opens of a fresh directory with different segment sizes; only the value of the first successful open is accepted afterwards.",
       SEQ_NOTE + " Concurrent part: " + CONC_NOTE, "casim-seq"),
   "C20": C("exploration", "3 C20", "deterministic simulation: on-disk well-formedness monitor with an independent decoder after every mutating call",
-      "After every mutating call that touches the snapshot or a segment, in plain histories, restarts and crash-image recoveries: complete checksummed records, at most one trailing end marker, strictly increasing versions within segment ranges, never reused across restarts, snapshot decodable and monotone, snapshot+log equal to the acknowledged or in-flight state. A fault-injecting run class (one failed call) keeps the monitors on. Concurrent part: the same monitors at every step of seeded schedules of writer programs with checkpoints, and at quiescence snapshot+log decoded independently == the index the API shows.",
+      "After every mutating call that touches the snapshot or a segment, in plain histories, restarts and crash-image recoveries: complete checksummed records, at most one trailing end marker, strictly increasing versions within segment ranges, never reused across restarts, snapshot decodable and monotone, snapshot+log equal to the acknowledged or in-flight state. A fault-injecting run class (one failed call, in half of its runs a second one in a later operation) keeps the monitors on. Concurrent part: the same monitors at every step of seeded schedules of writer programs with checkpoints, and at quiescence snapshot+log decoded independently == the index the API shows.",
       SEQ_NOTE + " Concurrent part: " + CONC_NOTE, "casim-seq"),
 }
 
@@ -108,7 +108,7 @@ def main():
         ],
         "checks": checks,
         "not_applicable": na,
-        "notes": "All checks: exit 0 held / 1 VIOLATION / 2 harness error. VERIF_SEED and VERIF_TIER honoured. Known findings and fixed defects: known_findings.json. Six genuine defects were repaired in /repo with fix: commits (8633b4a, 2b3c92e, b68755c, da69cee, aebf71c, 8612dc6).",
+        "notes": "All checks: exit 0 held / 1 VIOLATION / 2 harness error. VERIF_SEED and VERIF_TIER honoured. Known findings and fixed defects: known_findings.json. Seven genuine defects were repaired in /repo with fix: commits (8633b4a, 2b3c92e, b68755c, da69cee, aebf71c, 8612dc6, c75bb84).",
     }
     json.dump(m, open(os.path.join(VERIF, "MANIFEST.json"), "w"), indent=1)
 
